@@ -24,7 +24,14 @@
    C13_auto_layout_fills but the columns + total spacing are not the used width;
    18 (table split across pages, every fragment read after the whole layout) the
    ColumnPositions of a fragment are not the model's for that fragment's own
-   content box and column widths; 19 a cell of a fragment is not on its columns. *)
+   content box and column widths; 19 a cell of a fragment is not on its columns;
+   20 a laid-out cell has a negative used (content) width; 21 auto layout: a
+   cell's used content width is smaller than the min-content width of its
+   content (widest word of the cell, from the generator's specification of the
+   document, never from the boxes); 22 the laid-out table (or the preferred
+   widths / autoTableLayout / fixedTableLayout run on it) has a NaN or infinite
+   width, position or size: such a value cannot be written as a Q, the harness
+   reports the table instead of comparing it. *)
 From Verif Require Export Base.F32 Base.GoSem Layout.TableGeom Layout.TableGeomSpec Box.TableGridPlain Layout.TableGeomAuto.
 From Coq Require Import QArith List ZArith NArith Bool.
 Import ListNotations.
@@ -61,7 +68,12 @@ Inductive acol_in := AC (mn mx pct : Q) (constrained has_cell no_max_content : b
    fragment's own cells) *)
 Inductive frag := Frag (x0 bsx : Q) (widths positions : list Q) (rows : list hrow).
 
+(* a laid-out cell: used content width, min-content width of its content *)
+Inductive ccell := CCell (w mc : Q).
+
 Inductive case :=
+| CCells (auto : bool) (cells : list ccell)
+| CNonFinite (site ncols nbad : N)
 | CPaged (frags : list frag)
 | CAuto (width : oq) (avail tmin tmax spacing : Q) (cols : list acol_in) (status : N) (out_cw : list Q) (out_w : Q)
 | CGrid (groups : list ggroup_in) (obs : list ggroup_obs) (auto : bool) (ncols : Z) (claim_width claim_norig : Z)
@@ -184,7 +196,17 @@ Definition acol_of (c : acol_in) : acol := let 'AC mn mx p k h z := c in mkAC mn
 Definition auto_hyps (tmin tmax spacing : Q) (cols : list acol) : bool :=
   Qle_bool (sumQ (map ac_min cols) + spacing) (tmin + slack) && Qle_bool tmin tmax && existsb ac_cell cols.
 
+(* "no cell has a negative used size", "never smaller than the content's
+   minimum" (auto layout: Layout/TableGeomProofs.v cell_content_fits shows it is
+   what columns sized for the cell's outer min-content width give) *)
+Definition cells_nonneg (cells : list ccell) : bool :=
+  forallb (fun c => let 'CCell w _ := c in Qle_bool 0 w) cells.
+Definition cells_hold_content (cells : list ccell) : bool :=
+  forallb (fun c => let 'CCell w mc := c in Qle_bool (mc - slack) w) cells.
+
 Inductive model_result :=
+| MCells (nonneg hold_content : bool)
+| MNonFinite
 | MPaged (positions : list (list Q))
 | MAuto (cw : list Q) (w : Q) (hyps : bool)
 | MGrid (roles : list N) (grid : res (list (list prow))) (width norig : Z)
@@ -195,6 +217,8 @@ Inductive model_result :=
 
 Definition model_out (c : case) : model_result :=
   match c with
+  | CCells _ cells => MCells (cells_nonneg cells) (cells_hold_content cells)
+  | CNonFinite _ _ _ => MNonFinite
   | CPaged frags =>
       MPaged (map (fun f => let 'Frag x0 bsx widths _ _ := f in
                             nth_default [] (fragments_positions f32 bsx [(x0, widths)]) 0) frags)
@@ -221,6 +245,11 @@ Definition model_out (c : case) : model_result :=
 
 Definition check (c : case) : N :=
   match c with
+  | CCells auto cells =>
+      if negb (cells_nonneg cells) then 20%N
+      else if auto && negb (cells_hold_content cells) then 21%N
+      else 0%N
+  | CNonFinite _ _ _ => 22%N
   | CPaged frags => first_nonzero (map frag_check frags)
   | CAuto width avail tmin tmax spacing cols status out_cw out_w =>
       let acs := map acol_of cols in
